@@ -82,6 +82,28 @@ theorem Kmat_kernel (n : Nat) (hn : 2 ≤ n) (τ : Fin n → K) (h : Kmat n *ᵥ
       push_cast
       ring
 
+/-! ### First-difference matrix (lonf order 1) -/
+
+/-- entry `(i, j)` of the first-difference matrix of `_first_order_matrix_setup`: `D[i,i] = 1, D[i,i+1] = -1` -/
+def d1EntryK (i j : Nat) : K := if j = i then 1 else if j = i + 1 then -1 else 0
+
+/-- the `(n-1) × n` first-difference matrix -/
+def Dmat1 (n : Nat) : Matrix (Fin (n - 1)) (Fin n) K := fun i j => d1EntryK i.val j.val
+
+def q0 {n : Nat} (i : Fin (n - 1)) : Fin n := ⟨i.val, by omega⟩
+def q1 {n : Nat} (i : Fin (n - 1)) : Fin n := ⟨i.val + 1, by omega⟩
+
+theorem Dmat1_mulVec (n : Nat) (τ : Fin n → K) (i : Fin (n - 1)) :
+    (Dmat1 n *ᵥ τ) i = τ (q0 i) - τ (q1 i) := by
+  have key : ∀ j : Fin n, Dmat1 n i j * τ j =
+      (if j = q0 i then τ j else 0) + (if j = q1 i then - τ j else 0) := by
+    intro j
+    unfold Dmat1 d1EntryK q0 q1
+    simp only [Fin.ext_iff]
+    split_ifs <;> first | (exfalso; omega) | ring1
+  unfold Matrix.mulVec dotProduct
+  simp only [key, Finset.sum_add_distrib, Finset.sum_ite_eq', Finset.mem_univ, if_true]
+  ring
 /-! ### Constraints -/
 
 variable {n kl kc : Nat}
@@ -128,5 +150,200 @@ theorem Cmat_feasible_iff (lw : Fin kl → Fin n) (cw : Fin kc → Fin n) (hcw :
     cases r with
     | inl i => rw [Cmat_level, h1]; rfl
     | inr i => rw [Cmat_change _ _ _ _ (hcw i), h2]; rfl
+
+/-! ### Full row rank of the constraint matrix (independent constraints) -/
+
+/-- weight a multiplier vector puts on level constraints at position `j` -/
+def alphaOf (lw : Fin kl → Fin n) (μ : Fin kl ⊕ Fin kc → K) (j : Nat) : K :=
+  ∑ i, if (lw i).val = j then μ (Sum.inl i) else 0
+
+/-- weight a multiplier vector puts on change constraints at position `j` -/
+def betaOf (cw : Fin kc → Fin n) (μ : Fin kl ⊕ Fin kc → K) (j : Nat) : K :=
+  ∑ k, if (cw k).val = j then μ (Sum.inr k) else 0
+
+/-- component `j` of `Cᵀ μ`: levels at `j`, plus changes at `j`, minus changes at `j + 1` -/
+theorem Cmat_transpose_mulVec (lw : Fin kl → Fin n) (cw : Fin kc → Fin n) (μ : Fin kl ⊕ Fin kc → K) (j : Fin n) :
+    ((Cmat lw cw)ᵀ *ᵥ μ) j = alphaOf lw μ j.val + betaOf cw μ j.val - betaOf cw μ (j.val + 1) := by
+  unfold Matrix.mulVec dotProduct alphaOf betaOf
+  rw [Fintype.sum_sum_type]
+  simp only [Matrix.transpose_apply, Cmat]
+  rw [add_sub_assoc, ← Finset.sum_sub_distrib]
+  congr 1
+  · refine Finset.sum_congr rfl (fun i _ => ?_)
+    simp only [Fin.ext_iff]
+    split_ifs <;> first | (exfalso; omega) | ring1
+  · refine Finset.sum_congr rfl (fun k _ => ?_)
+    simp only [Fin.ext_iff]
+    split_ifs <;> first | (exfalso; omega) | ring1
+
+theorem betaOf_zero (cw : Fin kc → Fin n) (hcw : ∀ k, 0 < (cw k).val) (μ : Fin kl ⊕ Fin kc → K) : betaOf cw μ 0 = 0 := by
+  unfold betaOf
+  refine Finset.sum_eq_zero (fun k _ => ?_)
+  have := hcw k
+  rw [if_neg (by omega)]
+
+theorem betaOf_out (cw : Fin kc → Fin n) (μ : Fin kl ⊕ Fin kc → K) (j : Nat) (hj : n ≤ j) : betaOf cw μ j = 0 := by
+  unfold betaOf
+  refine Finset.sum_eq_zero (fun k _ => ?_)
+  have := (cw k).isLt
+  rw [if_neg (by omega)]
+
+theorem alphaOf_at (lw : Fin kl → Fin n) (hinj : Function.Injective lw) (μ : Fin kl ⊕ Fin kc → K) (i : Fin kl) :
+    alphaOf lw μ (lw i).val = μ (Sum.inl i) := by
+  unfold alphaOf
+  rw [Finset.sum_eq_single i]
+  · simp
+  · intro i' _ hne
+    rw [if_neg]
+    intro h
+    exact hne (hinj (Fin.ext h))
+  · intro h; exact absurd (Finset.mem_univ i) h
+
+theorem betaOf_at (cw : Fin kc → Fin n) (hinj : Function.Injective cw) (μ : Fin kl ⊕ Fin kc → K) (k : Fin kc) :
+    betaOf cw μ (cw k).val = μ (Sum.inr k) := by
+  unfold betaOf
+  rw [Finset.sum_eq_single k]
+  · simp
+  · intro k' _ hne
+    rw [if_neg]
+    intro h
+    exact hne (hinj (Fin.ext h))
+  · intro h; exact absurd (Finset.mem_univ k) h
+
+/-- the recursion `β(j+1) = β(j) + α(j)` that `Cᵀ μ = 0` imposes along the time line -/
+theorem beta_step (lw : Fin kl → Fin n) (cw : Fin kc → Fin n) (μ : Fin kl ⊕ Fin kc → K)
+    (h : (Cmat lw cw)ᵀ *ᵥ μ = 0) (j : Nat) (hj : j < n) :
+    betaOf cw μ (j + 1) = betaOf cw μ j + alphaOf lw μ j := by
+  have := congrFun h ⟨j, hj⟩
+  rw [Cmat_transpose_mulVec] at this
+  simp only [Pi.zero_apply] at this
+  linear_combination -this
+
+/-- **full row rank, levels only**: distinct level positions are independent -/
+theorem Cmat_rank_levels (lw : Fin kl → Fin n) (hinj : Function.Injective lw) (cw : Fin 0 → Fin n)
+    (μ : Fin kl ⊕ Fin 0 → K) (h : (Cmat lw cw)ᵀ *ᵥ μ = 0) : μ = 0 := by
+  funext r
+  rcases r with i | k
+  · have hb : ∀ j, betaOf cw μ j = 0 := fun j => by unfold betaOf; simp
+    have := beta_step lw cw μ h (lw i).val (lw i).isLt
+    rw [hb, hb, alphaOf_at lw hinj] at this
+    simpa using this.symm
+  · exact k.elim0
+
+/-- **full row rank, changes only**: distinct change positions (each `≥ 1`) are independent -/
+theorem Cmat_rank_changes (lw : Fin 0 → Fin n) (cw : Fin kc → Fin n) (hinj : Function.Injective cw)
+    (hcw : ∀ k, 0 < (cw k).val) (μ : Fin 0 ⊕ Fin kc → K) (h : (Cmat lw cw)ᵀ *ᵥ μ = 0) : μ = 0 := by
+  have ha : ∀ j, alphaOf lw μ j = 0 := fun j => by unfold alphaOf; simp
+  have hb : ∀ j, j ≤ n → betaOf cw μ j = 0 := by
+    intro j
+    induction j with
+    | zero => intro _; exact betaOf_zero cw hcw μ
+    | succ j ih =>
+      intro hj
+      rw [beta_step lw cw μ h j (by omega), ih (by omega), ha, add_zero]
+  funext r
+  rcases r with i | k
+  · exact i.elim0
+  · rw [← betaOf_at cw hinj μ k]
+    exact hb _ (by have := (cw k).isLt; omega)
+
+theorem alphaOf_ne_zero (lw : Fin kl → Fin n) (μ : Fin kl ⊕ Fin kc → K) (j : Nat) (h : alphaOf lw μ j ≠ 0) :
+    ∃ i, (lw i).val = j := by
+  by_contra hne
+  apply h
+  unfold alphaOf
+  refine Finset.sum_eq_zero (fun i _ => ?_)
+  rw [if_neg]
+  intro hi
+  exact hne ⟨i, hi⟩
+
+theorem betaOf_ne_zero (cw : Fin kc → Fin n) (μ : Fin kl ⊕ Fin kc → K) (j : Nat) (h : betaOf cw μ j ≠ 0) :
+    ∃ k, (cw k).val = j := by
+  by_contra hne
+  apply h
+  unfold betaOf
+  refine Finset.sum_eq_zero (fun k _ => ?_)
+  rw [if_neg]
+  intro hk
+  exact hne ⟨k, hk⟩
+
+/-- **full row rank, levels and changes together.**  Distinct level positions, distinct change positions (`≥ 1`), and
+no "cycle": between two level positions `p < q` at least one period of `p+1 … q` carries no change constraint
+(otherwise the two levels and the changes in between over-determine `τ_q − τ_p`). -/
+theorem Cmat_rank_mixed (lw : Fin kl → Fin n) (cw : Fin kc → Fin n)
+    (hlinj : Function.Injective lw) (hcinj : Function.Injective cw) (hcw : ∀ k, 0 < (cw k).val)
+    (hnc : ∀ i i', (lw i).val < (lw i').val → ∃ j, (lw i).val < j ∧ j ≤ (lw i').val ∧ ∀ k, (cw k).val ≠ j)
+    (μ : Fin kl ⊕ Fin kc → K) (h : (Cmat lw cw)ᵀ *ᵥ μ = 0) : μ = 0 := by
+  have step := beta_step lw cw μ h
+  -- all level weights vanish
+  have ha : ∀ j, j < n → alphaOf lw μ j = 0 := by
+    by_contra hcon
+    push Not at hcon
+    have hex : ∃ p, p < n ∧ alphaOf lw μ p ≠ 0 := hcon
+    classical
+    let p := Nat.find hex
+    have hp : p < n ∧ alphaOf lw μ p ≠ 0 := Nat.find_spec hex
+    have hmin : ∀ j, j < p → alphaOf lw μ j = 0 := by
+      intro j hj
+      by_contra hne
+      exact Nat.find_min hex hj ⟨by omega, hne⟩
+    obtain ⟨i, hi⟩ := alphaOf_ne_zero lw μ p hp.2
+    have hb0 : ∀ j, j ≤ p → betaOf cw μ j = 0 := by
+      intro j
+      induction j with
+      | zero => intro _; exact betaOf_zero cw hcw μ
+      | succ j ih =>
+        intro hj
+        rw [step j (by omega), ih (by omega), hmin j (by omega), add_zero]
+    -- β stays at α(p) as long as no level position is met
+    have hrun : ∀ j, p < j → j ≤ n → (∀ q, p < q → q < j → ∀ i', (lw i').val ≠ q) →
+        betaOf cw μ j = alphaOf lw μ p := by
+      intro j
+      induction j with
+      | zero => intro h0; omega
+      | succ j ih =>
+        intro hpj hjn hfree
+        rw [step j (by omega)]
+        by_cases hjp : j = p
+        · rw [hjp, hb0 p le_rfl, zero_add]
+        · have hpj' : p < j := by omega
+          rw [ih hpj' (by omega) (fun q h1 h2 => hfree q h1 (by omega))]
+          have : alphaOf lw μ j = 0 := by
+            by_contra hne
+            obtain ⟨i', hi'⟩ := alphaOf_ne_zero lw μ j hne
+            exact hfree j hpj' (by omega) i' hi'
+          rw [this, add_zero]
+    by_cases hq : ∃ q, p < q ∧ ∃ i', (lw i').val = q
+    · have hspec := Nat.find_spec hq
+      have hfm : ∀ m, m < Nat.find hq → ¬ (p < m ∧ ∃ i', (lw i').val = m) := fun m hm => Nat.find_min hq hm
+      generalize Nat.find hq = q at hspec hfm
+      obtain ⟨hpq, i', hi'⟩ := hspec
+      have hqmin : ∀ q', p < q' → q' < q → ∀ i'', (lw i'').val ≠ q' := by
+        intro q' h1 h2 i'' h3
+        exact hfm q' h2 ⟨h1, i'', h3⟩
+      obtain ⟨j, hj1, hj2, hj3⟩ := hnc i i' (by rw [hi, hi']; exact hpq)
+      rw [hi] at hj1
+      rw [hi'] at hj2
+      have hqn : q < n := by rw [← hi']; exact (lw i').isLt
+      have hbj : betaOf cw μ j = alphaOf lw μ p :=
+        hrun j hj1 (by omega) (fun q' h1 h2 => hqmin q' h1 (by omega))
+      obtain ⟨k, hk⟩ := betaOf_ne_zero cw μ j (by rw [hbj]; exact hp.2)
+      exact hj3 k hk
+    · push Not at hq
+      have hbn : betaOf cw μ n = alphaOf lw μ p :=
+        hrun n hp.1 le_rfl (fun q h1 _ i' h3 => hq q h1 i' h3)
+      rw [betaOf_out cw μ n le_rfl] at hbn
+      exact hp.2 hbn.symm
+  have hb : ∀ j, j ≤ n → betaOf cw μ j = 0 := by
+    intro j
+    induction j with
+    | zero => intro _; exact betaOf_zero cw hcw μ
+    | succ j ih =>
+      intro hj
+      rw [step j (by omega), ih (by omega), ha j (by omega), add_zero]
+  funext r
+  rcases r with i | k
+  · rw [← alphaOf_at lw hlinj μ i]; exact ha _ (lw i).isLt
+  · rw [← betaOf_at cw hcinj μ k]; exact hb _ (by have := (cw k).isLt; omega)
 
 end IrisVerif.HPMatrix
